@@ -15,7 +15,7 @@ with tempfile.TemporaryDirectory() as tmp:
     junit = os.path.join(tmp, 'junit.xml')
     cmd = ['/venv/bin/python', '-m', 'pytest', '-ra', '-q', '-p', 'no:cacheprovider',
            '--timeout=900', '--continue-on-collection-errors', '--junitxml=' + junit]
-    res = subprocess.run(cmd, cwd='/repo', env=env, capture_output=True, text=True)
+    res = subprocess.run(cmd, cwd=os.environ.get('BARDOLPH_REPO', '/repo'), env=env, capture_output=True, text=True)
     passed = set()
     for tc in ET.parse(junit).getroot().iter('testcase'):
         if not list(tc):
